@@ -24,6 +24,10 @@ def run_property(pid: str, tier: str, replay: str | None = None) -> int:
         mod.run(report, program, tier)
         if tier == "thorough" and not replay and not os.environ.get("MVERIF_REPO"):
             report.extra["selftest"] = run_selftest(pid)
+            x = run_mypy_cross_resolution()
+            report.extra["mypy_cross_resolution"] = x
+            for prob in x.get("problems", []):
+                report.errors.append(f"program model disagrees with mypy: {prob}")
         if replay:
             want = json.loads(open(replay).read())
             for r in report.rules:
@@ -39,6 +43,22 @@ def run_property(pid: str, tier: str, replay: str | None = None) -> int:
         traceback.print_exc()
         print(f"ANALYSIS-ERROR property={pid} internal error in the analyser (see traceback)")
         return 2
+
+
+def run_mypy_cross_resolution() -> dict:
+    """Thorough tier: compare the program model's MROs and member resolution with mypy's
+    semantic analysis of the same tree (no code is executed). Disagreement -> ANALYSIS-ERROR."""
+    import subprocess
+
+    try:
+        import mypy  # noqa: F401
+    except ImportError:
+        return {"skipped": "mypy is not installed in the repository's environment"}
+    try:
+        pr = subprocess.run([sys.executable, "-m", "mverif.mypyx"], capture_output=True, text=True, timeout=600, env={**os.environ, "PYTHONPATH": os.path.dirname(os.path.dirname(os.path.abspath(__file__)))})
+        return json.loads(pr.stdout.strip().splitlines()[-1])
+    except Exception as e:  # noqa: BLE001
+        return {"skipped": f"could not run: {e}"[:200]}
 
 
 def run_selftest(pid: str) -> dict:
